@@ -105,3 +105,50 @@ Proof.
   exists (ar_bound false [(2, 4, 7000)]), [(2, 4, 7000)].
   split; [vm_compute; reflexivity|]. split; [apply N.le_refl|]. vm_compute. reflexivity.
 Qed.
+
+(* ---- any sequence of adds ---- *)
+Lemma step_cases : arena_params_ok = true -> forall cap n es, ar_heights_ok es = true ->
+  (ar_reserve_ok cap n es = true /\ ar_step cap n es = n + ar_sum_alloc es /\ n + ar_sum_alloc es + ar_max_unused <= cap) \/
+  (ar_reserve_ok cap n es = false /\ ar_step cap n es = n).
+Proof.
+  intros Hp cap n es Hh. unfold ar_step, ar_mem_add.
+  destruct (ar_reserve_ok cap n es) eqn:Hr.
+  - left. destruct (reservation_sufficient Hp cap n es Hh Hr) as [Hi Hc]. rewrite Hi. auto.
+  - right. auto.
+Qed.
+
+Lemma reachable_counter : reachable_counter_stmt.
+Proof.
+  intros Hp cap bs. induction bs as [|es bs IH]; intros n0 Hh Hn.
+  - cbn [ar_run fold_left ar_accepted_cost]. repeat split; lia.
+  - cbn [forallb] in Hh. apply andb_true_iff in Hh. destruct Hh as [He Hbs].
+    unfold ar_run in *. cbn [fold_left ar_accepted_cost].
+    destruct (step_cases Hp cap n0 es He) as [[Hr [Hs Hc]] | [Hr Hs]]; rewrite Hr, Hs.
+    + destruct (IH (n0 + ar_sum_alloc es) Hbs Hc) as [H1 [H2 H3]]. rewrite H1. repeat split; lia.
+    + destruct (IH n0 Hbs Hn) as [H1 [H2 H3]]. rewrite H1. repeat split; lia.
+Qed.
+
+Lemma refused_stays_refused : refused_stays_refused_stmt.
+Proof.
+  intros Hp cap bs n0 es Hh Hn Hr.
+  destruct (reachable_counter Hp cap bs n0 Hh Hn) as [_ [Hge _]].
+  unfold ar_mem_add in *.
+  destruct (ar_reserve_ok cap n0 es) eqn:Hr0.
+  - (* granted reservations do not fail: heights are irrelevant to the contradiction only when es is well-formed;
+       without that the inserts themselves may have failed, and they fail again on a higher counter *)
+    destruct (ar_reserve_ok cap (ar_run cap bs n0) es) eqn:Hr1; [|reflexivity].
+    clear Hr0 Hr1 Hn. revert Hr. revert Hge. generalize (ar_run cap bs n0) as n1. intros n1. revert n0 n1.
+    induction es as [|e es IHes]; intros n0 n1 Hge Hr; [discriminate|].
+    cbn [ar_insert_all] in *. unfold ar_insert, arena_alloc in *.
+    set (sz := ar_node_size (ar_e_h e) + ar_e_k e + ar_e_v e) in *.
+    set (pad := ARENA_ALIGN - 1) in *. set (ov := ar_unused (ar_e_h e)) in *.
+    destruct (cap <? n0 + sz + pad + ov) eqn:H0.
+    + apply N.ltb_lt in H0. assert (H1 : (cap <? n1 + sz + pad + ov) = true) by (apply N.ltb_lt; lia). rewrite H1. reflexivity.
+    + destruct (cap <? n1 + sz + pad + ov) eqn:H1; [reflexivity|].
+      apply N.ltb_ge in H0. apply (IHes (n0 + sz + pad) (n1 + sz + pad)); [lia | exact Hr].
+  - destruct (ar_reserve_ok cap (ar_run cap bs n0) es) eqn:Hr1; [|reflexivity].
+    unfold ar_reserve_ok in *. apply N.leb_le in Hr1. apply N.leb_gt in Hr0. lia.
+Qed.
+
+Lemma reachable_counter_example : reachable_counter_example_stmt.
+Proof. split; vm_compute; [discriminate | reflexivity]. Qed.
